@@ -104,10 +104,10 @@ def parse_junit(so, ncases):
 LAST_JUNIT_COUNTS = None
 
 
-def run_test_cmd(wd, i, c, cases, layout, fmt, events=None):
+def run_test_cmd(wd, i, c, cases, layout, fmt, events=None, two_files=None):
     base = "t%d" % i
     # every other run with two or more cases keeps them in two test files (read in name order)
-    split = (len(cases) + 1) // 2 if (len(cases) >= 2 and i % 2 == 0) else 0
+    split = (len(cases) + 1) // 2 if (len(cases) >= 2 and (two_files if two_files is not None else i % 2 == 0)) else 0
     if layout == "dir":
         wd.write("%s/rules.guard" % base, c["rules"])
         if split:
@@ -216,19 +216,29 @@ def record(res, tier, tr):
                     if len(picked) < ncases and q not in picked:
                         picked.append(q)
                 rnd.shuffle(picked)
-                for q in picked:
+                clean_tail = rnd.random() < 0.4
+                two_files = rnd.random() < 0.6
+                for pos, q in enumerate(picked):
                     src = cands[q]
                     exp = []
+                    # in every third file the cases of the second half expect what the rules give
+                    # (a clean last test file after one with mismatches)
+                    truthful = clean_tail and pos >= (len(picked) + 1) // 2 and vres[q]["ok"]
+                    actual = {}
+                    for nm_, st_ in (vres[q]["rules"] if truthful else []):
+                        actual.setdefault(nm_, st_)
                     for nm in names:
-                        if rnd.random() < 0.75:
+                        if truthful and nm in actual:
+                            exp.append([nm, actual[nm]])
+                        elif rnd.random() < 0.75:
                             exp.append([nm, rnd.choice(STAT)])
-                    if rnd.random() < 0.2:
+                    if rnd.random() < 0.2 and not truthful:
                         exp.append(["no_such_rule", "PASS"])
                     cases.append({"doc": src["doc"], "text": src["text"], "exp": exp, "v": vres[q]})
                 layout = "dir" if (k % 3 == 0) else "single"
                 fmt = fmts[k % 4]
                 evp = os.path.join(wd.path, "events_%d.ndjson" % i)
-                obs, args, so, se = run_test_cmd(wd, i, c, cases, layout, fmt, events=evp)
+                obs, args, so, se = run_test_cmd(wd, i, c, cases, layout, fmt, events=evp, two_files=two_files)
                 with open(tr + ".events", "a") as ef:
                     ef.write(json.dumps({"e": "begin", "i": i}) + "\n")
                     if os.path.exists(evp):
